@@ -230,8 +230,8 @@ CHECKS = {
         "level": "fault_enumeration",
         "max_skip_fraction": 0.10,
         "rule": "one run = one generated workload (schema, 1-3 batches, writer/reader options) for one format; the fault-free write+read is the reference; then EVERY sink call k "
-                "(write and flush) is failed in 6 variants (one-shot/persistent x drop/into_inner x Err/Ok(0)), EVERY source call k (read, seek, fill_buf, get_read, get_bytes) is failed "
-                "one-shot and persistent, EVERY prefix length 0..len of the produced file (<= 8 KiB; larger: write-call edges +-2 and a stride) is read back, the file left by each "
+                "(write and flush) is failed in 6 variants (one-shot/persistent x drop/into_inner x Err/Ok(0)) and once with a single Interrupted and once with a single short write, EVERY source call k (read, seek, fill_buf, get_read, get_bytes) is failed "
+                "one-shot and persistent and once with a single Interrupted and once with a single short read, EVERY PageStore put / take call (parquet_spill), EVERY prefix length 0..len of the produced file (<= 8 KiB; larger: write-call edges +-2 and a stride) is read back, the file left by each "
                 "persistently failing writer is read back, and one tape-driven benign part (short reads/writes, bounded Interrupted) is run; evaluations = workloads, "
                 "executions_of_real_code = writer or reader executions; a run is non-trivial when its reference succeeded; distinct = distinct (format, sink calls, file length)",
         "required_probes": ["probe.benign_write_ok", "probe.benign_read_ok"],
@@ -239,14 +239,15 @@ CHECKS = {
             "real": ["arrow_ipc::writer::{FileWriter, StreamWriter} (plain and BufWriter-wrapped), arrow_ipc::reader::{FileReader, StreamReader} (plain and buffered)",
                      "parquet::arrow::ArrowWriter + SerializedFileWriter + TrackedWrite, ParquetRecordBatchReaderBuilder / ParquetMetaDataReader / SerializedFileReader over a ChunkReader",
                      "arrow_avro writer (OCF and single-object encoding), arrow_avro OCF Reader", "arrow_csv::{Writer, Reader}", "arrow_json::{LineDelimitedWriter, ArrayWriter, Reader}",
+                     "parquet::arrow::AsyncArrowWriter over the blanket AsyncFileWriter for AsyncWrite; ParquetRecordBatchStream over the blanket AsyncFileReader for AsyncRead + AsyncSeek", "ArrowWriter with a PageStoreFactory (ArrowWriterOptions::with_page_store_factory)",
                      "the codecs these call (lz4, zstd, snappy, gzip, brotli, bzip2, xz, deflate)"],
-            "stub": ["every sink (SimSink: Write), source (SimSource: Read+Seek, ChunkedBufRead: BufRead) and file (SimFile: ChunkReader)"],
-            "not_run": ["AsyncArrowWriter, ParquetRecordBatchStream, PageStore spill faults, object_store adapters, SpawnedReader, Avro SOE decoder (no Read-based reader)"],
+            "stub": ["every sink (SimSink: Write), source (SimSource: Read+Seek, ChunkedBufRead: BufRead) and file (SimFile: ChunkReader)", "tokio AsyncWrite / AsyncRead + AsyncSeek faces of the same devices with seeded Pending (manual executor)", "the PageStore spill store (put / take fail at call k, non-dense keys)"],
+            "not_run": ["object_store adapters, SpawnedReader, Avro SOE decoder (no Read-based reader)"],
         },
         "level_text": "per generated workload, exhaustive enumeration of the fault position (every sink call, every source call, every truncation length of small files) with seeded "
                       "sampling of workloads, options and benign-fault schedules; oracle: error reported, no panic/hang, accepted bytes are a prefix of the fault-free output, rows are a prefix of the fault-free rows",
         "design_ref": "DESIGN.md section 4 (C18)",
-        "level_note": "sync Read/Write/Seek/BufRead/ChunkReader seams only (async writer/reader paths and PageStore faults are not exercised); workloads are sampled, fault positions are enumerated; "
+        "level_note": "sync Read/Write/Seek/BufRead/ChunkReader seams, the tokio async faces of the Parquet writer / stream (scenario parquet_async) and the PageStore seam (parquet_spill); workloads are sampled, fault positions are enumerated; "
                       "CSV truncation is not checked (a cut line is a valid shorter line); trusted: in-tree simulator, row extraction, ArrayData::validate_full; "
                       "runs whose fault-free reference fails are skipped and counted (no fault was injected, so they say nothing about C18)",
         "technique": "deterministic simulation with fault injection: instrumented sink/source, fault at call k for all k, truncation at every length, tape-driven short transfers and EINTR, tape replay + shrinking",
